@@ -107,12 +107,67 @@ inductive AppEv where
   | other (tag : String)
   deriving DecidableEq, Repr, Inhabited
 
+/-- `strings.HasPrefix(s, p)`, on the characters (kernel-reducible, unlike
+`String.startsWith`; the same on valid UTF-8). -/
+def hasPrefix (p s : String) : Bool := p.toList.isPrefixOf s.toList
+
 def AppEv.isInternalQuery : AppEv → Bool
-  | .query _ name => name.startsWith internalPrefix
+  | .query _ name => hasPrefix internalPrefix name
   | .other _ => false
 
 /-- `serfQueries.stream`: internal queries are handled, everything else is forwarded. -/
 def forwardedToApp (evs : List AppEv) : List AppEv := evs.filter (fun e => !e.isInternalQuery)
+
+/-! ### Routing of the node's event channel (`serfQueries.stream` and the switch of
+`serfQueries.handleQuery`), parameterised by the shape regenerated from
+serf/internal_query.go (`SerfModel/Gen/InternalQueries.lean`). -/
+
+/-- The `case e := <-s.inCh` arm of `serfQueries.stream`. -/
+structure StreamShape where
+  /-- value of the constant `InternalQueryPrefix` -/
+  prefixConst : String
+  /-- the test is `q, ok := e.(*Query); ok && strings.HasPrefix(q.Name, InternalQueryPrefix)` -/
+  guardIsQueryWithPrefix : Bool
+  /-- the then-branch is exactly `go s.handleQuery(q)` (nothing is sent on `outCh`) -/
+  thenOnlySpawnsHandler : Bool
+  /-- the else-branch is `if s.outCh != nil { s.outCh <- e }` -/
+  elseForwards : Bool
+  deriving DecidableEq, Repr, Inhabited
+
+/-- The switch of `serfQueries.handleQuery`. -/
+structure SwitchShape where
+  /-- the switch tag is `q.Name[len(InternalQueryPrefix):]` -/
+  tagStripsPrefix : Bool
+  /-- (value of the case constant, handler method called with `q`; `""` = empty case) in source order -/
+  cases : List (String × String)
+  /-- the default branch only logs (no handler call, no send on any channel) -/
+  defaultOnlyLogs : Bool
+  deriving DecidableEq, Repr, Inhabited
+
+/-- Where one event of the node's event channel ends up. -/
+inductive Route where
+  /-- forwarded on `outCh` to the application (and the snapshotter) -/
+  | app
+  /-- consumed by the internal handler `h` (`""` = the empty `ping` case) -/
+  | handler (h : String)
+  /-- consumed: the default branch logs "Unhandled internal query" and drops it -/
+  | dropped
+  /-- the regenerated shape is not one the model understands -/
+  | unknownShape
+  deriving DecidableEq, Repr, Inhabited
+
+def shapesUnderstood (st : StreamShape) (sw : SwitchShape) : Bool :=
+  st.guardIsQueryWithPrefix && st.thenOnlySpawnsHandler && st.elseForwards && sw.tagStripsPrefix && sw.defaultOnlyLogs
+
+/-- `stream` followed by `handleQuery`'s switch, for an event that is a `*Query`
+with the given name (`isQuery = false`: any other event type). -/
+def route (st : StreamShape) (sw : SwitchShape) (isQuery : Bool) (name : String) : Route :=
+  if !shapesUnderstood st sw then .unknownShape
+  else if isQuery && hasPrefix st.prefixConst name then
+    match alookup sw.cases (String.ofList (name.toList.drop st.prefixConst.length)) with
+    | some h => .handler h
+    | none => .dropped
+  else .app
 
 /-- Run a history of query messages; collects, in order, the (time, id) of the
 queries delivered to the event channel and of those re-broadcast. -/
